@@ -400,7 +400,7 @@ class Ctx:
         self.distinct += int(summ.get("distinct_nontrivial", 0))
         if summ.get("rule"):
             self.rule = (self.rule + " | " if self.rule else "") + ((label + ": ") if label else "") + summ["rule"]
-        for s in summ.get("samples", [])[:4]:
+        for s in (summ.get("samples") or [])[:4]:
             self.samples.append(s)
         if "distribution" in summ:
             self.cov.setdefault("distribution", {})[label or "oracle"] = summ["distribution"]
